@@ -4,7 +4,7 @@ From Coq Require Import ZArith Reals List.
 From FF Require Import Base.Ops Inst.RInst Base.RAlg Base.FMat Model.Numeric Model.Decay Model.Cumulant
      Model.Tie.C08 Proofs.Trapz Proofs.Decay Proofs.TraceId Proofs.PauliOnb Proofs.InfidPos.
 (* the correspondence check's observables and constants are part of the cone rebuilt by ./check *)
-From FF Require Model.Consts Inst.Param Corr.Agree Corr.Obs Corr.ObsC08.
+From FF Require Model.Consts Inst.Param Inst.EnclosureC08 Corr.Agree Corr.Obs Corr.ObsC08.
 Import ListNotations.
 Local Open Scope R_scope.
 
